@@ -111,6 +111,9 @@ def _gen_logits(rng, n, B):
                 x[int(rng.integers(n))] = 0.0
         elif style == 4:                    # dyadic
             x = rng.integers(-8, 9, size=n) / 4.0
+        elif style == 5:                    # a few dominating entries, far beyond exp underflow
+            k = int(rng.integers(1, max(2, n // 2 + 1)))
+            x[rng.choice(n, size=min(k, n), replace=False)] += float(rng.choice([100.0, 300.0]))
         out[b] = x
     return out
 
@@ -737,7 +740,57 @@ def _statistical(ctx):
                          key=INT8_KEY if (n > 127 and not np.isfinite(worst)) else "samples_follow_density")
 
 
+def _joint_independence(ctx):
+    """product laws: the components of a sample are independent — also when components have the same
+    size / the same parameters (pairwise coincidence frequency and joint frequencies vs the product)"""
+    from lerax.distribution import MultiCategorical, MultivariateNormalDiag
+    rng = ctx.rng
+    ft = _f(ctx)
+    N = 4096
+    for dims in ctx.budget([(3, 3), (2, 3), (4, 2, 4)], [(3, 3), (2, 3), (4, 2, 4), (2, 2, 2), (5, 5), (3, 4, 3)]):
+        base = _cast(ctx, rng.normal(0, 1.0, size=max(dims)))
+        same = bool(rng.random() < 0.7)
+        parts = [base[:n] if same else _cast(ctx, rng.normal(0, 1.0, size=n)) for n in dims]
+        d = MultiCategorical(logits=jnp.asarray(np.concatenate(parts), ft), action_dims=dims)
+        probs = [np.exp(p - p.max()) / np.exp(p - p.max()).sum() for p in parts]
+        worst, detail = 0.0, None
+        for attempt in range(2):
+            keys = jax.random.split(jax.random.key(int(rng.integers(2 ** 31))), N)
+            smp = np.asarray(jax.vmap(d.sample)(keys)).astype(np.int64)
+            worst, detail = 0.0, None
+            for i in range(len(dims)):
+                for j in range(i + 1, len(dims)):
+                    joint = np.zeros((dims[i], dims[j]))
+                    np.add.at(joint, (np.clip(smp[:, i], 0, dims[i] - 1), np.clip(smp[:, j], 0, dims[j] - 1)), 1)
+                    exp = N * np.outer(probs[i], probs[j])
+                    z = np.abs(joint - exp) / np.sqrt(exp * (1 - exp / N) + 1.0)
+                    if z.max() > worst:
+                        worst, detail = float(z.max()), {"components": [i, j], "observed": joint, "expected": exp}
+            if worst <= 5.5:
+                break
+        case = {"law": "MultiCategorical", "action_dims": list(dims), "identical_components": same,
+                "logits": [p for p in parts], "search": "joint-frequencies"}
+        ctx.case(case, True)
+        ctx.count("search:joint-independence")
+        if worst > 5.5:
+            ctx.phi_fail("samples_follow_product_density(joint frequencies)", {**case, "worst_z": worst, **(detail or {})},
+                         key="joint_sample_law")
+    for D in ctx.budget([2], [2, 3]):
+        loc = _cast(ctx, np.zeros(D)); scale = _cast(ctx, np.ones(D))
+        d = MultivariateNormalDiag(jnp.asarray(loc, ft), jnp.asarray(scale, ft))
+        keys = jax.random.split(jax.random.key(int(rng.integers(2 ** 31))), N)
+        smp = np.asarray(jax.vmap(d.sample)(keys), dtype=np.float64)
+        corr = np.corrcoef(smp.T)
+        off = np.abs(corr - np.eye(D)).max()
+        case = {"law": "MultivariateNormalDiag", "D": D, "search": "component-correlation", "max_abs_corr": float(off)}
+        ctx.case(case, True)
+        ctx.count("search:joint-independence")
+        if off > 6.0 / math.sqrt(N):
+            ctx.phi_fail("samples_follow_product_density(correlation)", case, key="joint_sample_law")
+
+
 def run(ctx):
+    _joint_independence(ctx)
     _categorical(ctx)
     _bernoulli(ctx)
     _multicat(ctx)
